@@ -313,7 +313,7 @@ def nest_workload(depth: int, kind: str) -> dict[str, Any]:
     for i in range(depth):
         k = kind if kind != "mixed" else ("block", "scope", "if")[i % 3]
         lines.append(opens[k].format(i=i) if k == "scope" else opens[k])
-    lines += [".db v_zq, w_zq", "lda.w #v_zq + w_zq"]
+    lines += ["in_zq:", "inv_zq = 3", ".db v_zq, w_zq", "lda.w #v_zq + w_zq"]
     lines += ["}"] * depth
     lines += [".db v_zq", ""]
     return {"files": {"main.s": "\n".join(lines).encode()}, "roles": {"main.s": "source"}, "mapping": "low", "target": "main.s", "name": f"nest_{kind}_{depth}"}
@@ -399,7 +399,7 @@ def cli_defines_case() -> dict[str, Any]:
 
 
 def plan(tier: str) -> dict[str, Any]:
-    fixed = [cli_defines_case()] + [{"type": "base", "seed": 1, "workload": zoo_workload()}, {"type": "base", "seed": 99, "workload": zoo_table_workload()}, {"type": "base", "seed": 98, "workload": zoo_ips_workload()}, {"type": "base", "seed": 97, "workload": chain_workload(45)}, {"type": "base", "seed": 95, "workload": nest_workload(40, "block")}, {"type": "base", "seed": 94, "workload": nest_workload(60, "mixed")}] + [{"type": "base", "seed": 2 + i, "workload": wl} for i, wl in enumerate(sample_workloads())]
+    fixed = [cli_defines_case()] + [{"type": "base", "seed": 1, "workload": zoo_workload()}, {"type": "base", "seed": 99, "workload": zoo_table_workload()}, {"type": "base", "seed": 98, "workload": zoo_ips_workload()}, {"type": "base", "seed": 97, "workload": chain_workload(45)}, {"type": "base", "seed": 95, "workload": nest_workload(40, "block")}, {"type": "base", "seed": 94, "workload": nest_workload(60, "mixed")}, {"type": "base", "seed": 93, "workload": nest_workload(40, "scope")}] + [{"type": "base", "seed": 2 + i, "workload": wl} for i, wl in enumerate(sample_workloads())]
     return {"fixed": fixed, "seeded": 56 if tier == "quick" else 0, "chunk": 1, "wall_cap_s": 240, "minimise_s": 40}
 
 
